@@ -570,6 +570,46 @@ func checkSeparatorPerGap(p *core.Program, r *core.Report, g *wlGen, rule string
 				okSF = false
 			}
 		}
+		// … chosen by exactly that test: the closure on `SeparatorFunc == nil` and nothing else, the
+		// function on `SeparatorFunc != nil` and nothing else (Entropy() takes the function's figure
+		// whenever the function is not nil)
+		if okSF {
+			m := phi.Block()
+			base := map[ssa.Value]bool{}
+			if d := m.Idom(); d != nil {
+				for _, gd := range core.Guards(d) {
+					base[gd.Cond] = true
+				}
+			}
+			for i, e := range phi.Edges {
+				pred := m.Preds[i]
+				gs := append([]core.Guard{}, core.Guards(pred)...)
+				if len(pred.Succs) == 2 && pred.Succs[0] != pred.Succs[1] {
+					idx := 0
+					if pred.Succs[1] == m {
+						idx = 1
+					}
+					if eg, ok := core.EdgeCond(pred, idx); ok {
+						gs = append(gs, eg)
+					}
+				}
+				wantNil := !recipeField(core.StripType(e), "SeparatorFunc")
+				n, okSel := 0, false
+				for _, gd := range gs {
+					if base[gd.Cond] {
+						continue
+					}
+					n++
+					if rel, ok := core.AsRel(gd); ok && core.IsNilConst(rel.Y) && recipeField(rel.X, "SeparatorFunc") &&
+						((rel.Op == token.EQL) == wantNil) && (rel.Op == token.EQL || rel.Op == token.NEQ) {
+						okSel = true
+					}
+				}
+				if !okSel || n != 1 {
+					okSF = false
+				}
+			}
+		}
 	} else if recipeField(g.sepCall.Call.Value, "SeparatorFunc") {
 		okSF = true
 		// it may be nil: then the call must be skipped and SeparatorChar used (checked by sepString/the guard above),
@@ -862,6 +902,10 @@ func runC05(p *core.Program, r *core.Report) {
 	// what separates the words is the recipe's own SeparatorChar/SeparatorFunc: the constructor
 	// installs no separator of its own (= C16 R16.2 for NewWLRecipe)
 	r.Borrow("R5.1b", func() { checkWLRecipeCtor(p, r) })
+	// … that function is called afresh for every gap and chosen by `SeparatorFunc == nil` alone (= C04 R4.3 re-run)
+	r.Borrow("R5.1b", func() { checkSeparatorPerGap(p, r, g, "R4.3") })
+	// … and the pre-baked empty separator function really returns the empty string (= C16 R16.3, SFNone)
+	borrowSelected(p, r, runC16, "R5.1b", func(o core.Obligation) bool { return o.Rule == "R16.3" && strings.Contains(o.Construct, "SFNone") })
 	// R5.1b
 	if len(seps) > 1 {
 		r.Fail("R5.1b", name, "at most one separator append per iteration", p.InstrPos(c.Phi), fmt.Sprintf("%d separator appends", len(seps)))
